@@ -212,6 +212,20 @@ var c14Kind = registerKind("c14", func(in c14In) string {
 			_, _ = ev3.ValidateAndSign(keyFor(icose.EdDSA, 0).Signer())
 			others[p.String()+" object that was signed"] = d
 		}
+		// objects that hold every OPTIONAL claim as well (certification
+		// reference, verification service, boot seed), through the setters
+		// and decoded: the lifecycle rule does not depend on other claims
+		{
+			fm := baseValid(p, 1)
+			if fc, ferr := fm.BuildSetters(); ferr == nil {
+				others[p.String()+" object holding every optional claim (certification reference, VSI, boot seed ...)"] = fc
+			} else {
+				return "VERIF-INFRA: " + ferr.Error()
+			}
+			if dc, derr := psatoken.DecodeClaimsFromCBOR(fm.WireBytes()); derr == nil {
+				others[p.String()+" object decoded from a token with every optional claim"] = dc
+			}
+		}
 		for what, oc := range others {
 			before, berr := oc.GetSecurityLifeCycle()
 			serr := oc.SetSecurityLifeCycle(v)
@@ -224,6 +238,19 @@ var c14Kind = registerKind("c14", func(in c14In) string {
 			}
 			if !valid && ((gerr == nil) != (berr == nil) || (gerr == nil && got != before)) {
 				return fmt.Sprintf("%s: a rejected setter changed what the getter returns: before %d, %v; after %d, %v", what, before, berr, got, gerr)
+			}
+		}
+		if valid {
+			// ... and the other way round: with the lifecycle v in place
+			// first, every other setter still takes its valid value
+			fm2 := baseValid(p, 1)
+			fm2.Lifecycle = u16p(v)
+			fc2, ferr := fm2.BuildSetters()
+			if ferr != nil {
+				return fmt.Sprintf("%s: with the (valid) lifecycle 0x%04x set first, a later setter refuses a valid value: %v", p, v, ferr)
+			}
+			if verr := fc2.Validate(); verr != nil {
+				return fmt.Sprintf("%s: a claims-set with every claim set successfully (lifecycle 0x%04x) does not validate: %v", p, v, verr)
 			}
 		}
 		// ... and the getter of such objects holding the value by a
